@@ -195,7 +195,10 @@ def main():
             if l.endswith("-> PANIC"):
                 n_panic_lines += 1
         key = prop.nontrivial(h, il)
-        if key is not None:
+        if isinstance(key, (set, list)):
+            for k in key:
+                sigs.add(hashlib.sha1(repr(k).encode()).hexdigest())
+        elif key is not None:
             sigs.add(hashlib.sha1(repr(key).encode()).hexdigest())
         if len(samples) < 3 and not h.hid.startswith("corpus"):
             samples.append({"history": h.hid, "N": h.n, "ops": h.ops[:40], "impl_trace_tail": [x[:200] for x in il[-2:]]})
